@@ -12,7 +12,7 @@ pub type QFn<W> = fn(&mut W, u8, Option<u64>) -> QOut;
 /// `Err(())`: `entry()` was `None`; `Ok(None)`: the query's filter rejected the entity.
 pub type EFn<W> = fn(&mut W, entity::Identifier) -> Result<Option<String>, ()>;
 
-pub trait Family {
+pub trait Family: 'static {
     fn queries() -> &'static [(&'static str, &'static str, QFn<Self::W>)];
     fn entryqs() -> &'static [(&'static str, &'static str, EFn<Self::W>)];
     fn entries() -> &'static [(&'static str, &'static str, &'static str, &'static str, &'static str, EFn<Self::W>)];
